@@ -259,16 +259,25 @@ bool OPN2::setupLocked()
 
 void OPN2::writeReg(size_t chip, uint8_t port, uint8_t index, uint8_t value)
 {
+#ifdef OPNMIDI_VERIF
+    if(opnmidi_verif_tap) opnmidi_verif_tap(this, 0, chip, port, index, value);
+#endif
     m_chips[chip]->writeReg(port, index, value);
 }
 
 void OPN2::writeRegI(size_t chip, uint8_t port, uint32_t index, uint32_t value)
 {
+#ifdef OPNMIDI_VERIF
+    if(opnmidi_verif_tap) opnmidi_verif_tap(this, 1, chip, port, index, value);
+#endif
     m_chips[chip]->writeReg(port, static_cast<uint8_t>(index), static_cast<uint8_t>(value));
 }
 
 void OPN2::writePan(size_t chip, uint32_t index, uint32_t value)
 {
+#ifdef OPNMIDI_VERIF
+    if(opnmidi_verif_tap) opnmidi_verif_tap(this, 2, chip, 0, index, value);
+#endif
     m_chips[chip]->writePan(static_cast<uint16_t>(index), static_cast<uint8_t>(value));
 }
 
